@@ -15,7 +15,7 @@ SeedBase == IF "VERIF_SEED" \in DOMAIN IOEnv THEN atoi(IOEnv.VERIF_SEED) ELSE 1
 \* file image: one line to change if the container format gets another canonical writer
 Image(c) == BF!Canon(c)
 \* Canon is cubic in the number of distinct strings: images are produced for contents with few strings
-ImageLimit == 14
+ImageLimit == 48
 ImageOrNone(c) == IF Len(c.text) <= ImageLimit THEN Image(c) ELSE <<>>
 
 \* ---- names: "" / ASCII / 2-byte Shift-JIS (hiragana), either few (shared) or distinct per index
@@ -101,7 +101,8 @@ Laws(v) ==
 Damage ==
   LET v == MkValue(Combos[3], <<MkSet([AllEmpty EXCEPT ![2] = 4], "few", TRUE)>>)
       ct == ASetContent(v)
-      bad == [ct EXCEPT !.data[SetsStart + 4 + 1] = 3]     \* group flag word: bits {0,31} -> {0,1}
+      \* group flag word: bits {0,31} -> {0,1,31}  (SubSeq forces the lazily defined data into a tuple)
+      bad == [ct EXCEPT !.data = [SubSeq(ct.data, 1, Len(ct.data)) EXCEPT ![SetsStart + 4 + 1] = 3]]
   IN RefParseASet(ct) = [ok |-> TRUE, v |-> v] /\ RefParseASet(bad) # RefParseASet(ct)
 Inv == CASE c.k = "val" -> Laws(c.v)
          [] c.k = "rnd" -> Laws(RndValue(c.seed))
